@@ -34,6 +34,7 @@ verus! {
 //%item parser.rs impl_Expression impl Expression \{
 //%include spec/shape.rs
 //%include spec/syntax.rs
+//%include spec/pratt.rs
 //%item parser.rs parse pub\(crate\) fn parse\b
 //%item parser.rs parse_expr fn parse_expr
 //%item parser.rs parse_led fn parse_led
